@@ -57,13 +57,18 @@ def gen_case(rng, car):
     if r < 0.80:
         x = gen_tt(rng, cplx)
         ax, kind = subset(rng, len(x.cores))
-        return Op("OSum", [x], [ax]), "sum:" + kind, None
+        if rng.random() < 0.08: ax, kind = [], "empty"
+        e = Op("OSum", [x], [ax])
+        if len(ax) == 1 and rng.random() < 0.6: e.int_index = True; kind += "(int)"       # x.sum(k) with a bare int, k = 0 included
+        return e, "sum:" + kind, None
     if r < 0.85:
         return Op("OSum", [gen_ttm(rng, cplx)]), "sum-all-ttm", None
     if r < 0.90:
         A = gen_ttm(rng, cplx)
         ax, kind = subset(rng, len(A.cores))
-        return Op("OSum", [A], [ax, ax + [len(A.cores) + i for i in ax]]), "sum-ttm:" + kind, None
+        e = Op("OSum", [A], [ax, ax + [len(A.cores) + i for i in ax]])
+        if len(ax) == 1 and rng.random() < 0.6: e.int_index = True; kind += "(int)"
+        return e, "sum-ttm:" + kind, None
     A = gen_ttm(rng, cplx)
     x = gen_tt(rng, cplx, N=[c.shape[1] for c in A.cores], rmax=2)
     y = gen_tt(rng, cplx, N=[c.shape[2] for c in A.cores], rmax=2)
